@@ -66,6 +66,8 @@ def tasks(tier, seed=0):
         for op in ("union", "intersection", "widen"):
             out.append(task(M, "ob_setop", f"vsa.{op}[expr]/gamma@w{w}", ["C24"], replay=R, op=op, w=w, tier=tier))
     out.append(task(M, "ob_if_bool", "vsa.If[bool]/gamma", ["C24"], replay=R, tier=tier))
+    for op in ("__eq__", "__ne__"):
+        out.append(task(M, "ob_dispatch", f"vsa.dispatch.{op}[bool operands]/gamma", ["C24"], replay=R, op=op, w=1, bool_operands=True, tier=tier))
     out.append(task(M, "ob_leaf", "vsa.BoolV/gamma", ["C24"], replay=R, what="BoolV", w=1, tier=tier))
     for q in ("has_true", "has_false", "is_true", "is_false", "solution[bool]"):
         out.append(task(M, "ob_query", f"vsa._{q}/sound", ["C24", "C10"], replay=R, q=q, w=1, tier=tier))
